@@ -381,7 +381,7 @@ func countByStep(n int, fn func(i int) string) map[string]int {
 
 // compareCalls checks the recorded request sequence against the expected one,
 // sequence for sequence.
-func compareCalls(r *explore.Run, prims []string, exp *expectation, got []call, failure string) {
+func compareCalls(r *explore.Run, prims []string, exp *expectation, got []call, failure string, faulted bool) {
 	n := len(got)
 	if len(exp.calls) < n {
 		n = len(exp.calls)
@@ -427,6 +427,11 @@ func compareCalls(r *explore.Run, prims []string, exp *expectation, got []call, 
 		if !proto.Equal(wc, gc) {
 			r.Failf("request/differs", "%s: request differs: want %s got %s", where, short(wc), short(gc))
 		}
+	}
+	if faulted {
+		// A failed read may end the pipeline early; the number of calls is
+		// then not determined by the contract.
+		return
 	}
 	// The sequences agree on their common prefix (or diverge in the function
 	// addressed): compare the number of calls per function.
@@ -586,6 +591,16 @@ func compareFinal(r *explore.Run, prims []string, state string, exp *expectation
 // ---- the scenario body --------------------------------------------------------
 
 func pipelineBody(r *explore.Run, rep *report.R, scName string, nsteps int, alphabet []string) {
+	pipelineBodyFaults(r, rep, scName, nsteps, alphabet, false)
+}
+
+// pipelineBodyFaults: with readFaults one read of the reconcile (a Get or List
+// of the composer: XR secret, composed resources through the cache or - on a
+// cache miss - the API server, extra resources, credential secrets) fails.
+// Then the reconcile may stop early, but every request it did send must still
+// be the promised one: in particular the observed state may not silently lack
+// a composed resource that exists.
+func pipelineBodyFaults(r *explore.Run, rep *report.R, scName string, nsteps int, alphabet []string, readFaults bool) {
 	// High-arity choices first: the explorer shards on the first points.
 	prims := make([]string, nsteps)
 	for i := range prims {
@@ -612,11 +627,23 @@ func pipelineBody(r *explore.Run, rep *report.R, scName string, nsteps int, alph
 		// The response is built from the copy and handed over untouched.
 		return behave(name, calls[len(calls)-1].req, maxIter), nil
 	})
-	rec := xrh.NewXRReconciler(xrd, xrh.XROptions{Cached: s.Client("xr"), Runner: runner, Recorder: recorder{&events}})
+	opts := xrh.XROptions{Cached: s.Client("xr"), Runner: runner, Recorder: recorder{&events}}
+	inj := &xrh.FaultInjector{Run: r, Reads: true, NoCrash: true, Filter: func(c simkube.Call) bool { return !c.Write }}
+	if readFaults {
+		if r.Bool("composed-kinds-miss-the-cache") {
+			opts.Cached = &xrh.MissingCache{Client: s.Client("xr"), Kinds: map[string]bool{xrh.ResA.Kind: true, xrh.ResB.Kind: true}}
+			opts.Uncached = s.Client("xr-uncached")
+		}
+		s.Inj = inj
+		inj.Armed = true
+	}
+	rec := xrh.NewXRReconciler(xrd, opts)
 	out := xrh.Reconcile(rec, types.NamespacedName{Name: "xr1"})
+	inj.Armed = false
 	if out.Crashed != nil {
 		panic(explore.HarnessError{Msg: "crash without fault injection"})
 	}
+	faulted := len(inj.Taken) > 0
 	xrAfter := s.Peek(xrh.XRKey("xr1"))
 	synced := condsOf(xrAfter)["Synced"]
 	failed := out.Err != nil || str(synced["status"]) != "True"
@@ -650,7 +677,12 @@ func pipelineBody(r *explore.Run, rep *report.R, scName string, nsteps int, alph
 		r.Logf("XR after: status %v", xrAfter.Object["status"])
 		r.Logf("expected events %v conds %+v final %v", exp.events, exp.conds, exp.final)
 	}
-	compareCalls(r, prims, exp, calls, str(synced["message"]))
+	compareCalls(r, prims, exp, calls, str(synced["message"]), faulted)
+	if faulted {
+		r.Logf("read fault %v", inj.Taken)
+		rep.Eval(scName, report.Hash(perStep, failed), report.Hash(state, prims, inj.Taken))
+		return
+	}
 
 	switch exp.fail {
 	case "":
@@ -727,7 +759,12 @@ func TestCheck(t *testing.T) {
 		name := fmt.Sprintf("pipeline/steps%d", k)
 		scs = append(scs, report.Scenario{Name: name, Bound: 0, Wrap: report.Bubble(t), Body: func(r *explore.Run) { pipelineBody(r, rep, name, k, primitives) }})
 	}
-	rep.SelfCheck(t, scs[len(scs)-1], func() { prepared = map[string]*simkube.Store{} })
+	fa := []string{"pass", "add-a", "drop-a", "req-name", "req-labels2", "req-then", "cred", "xr-status"}
+	scs = append(scs, report.Scenario{Name: "pipeline-read-faults/steps1", Bound: 1, Wrap: report.Bubble(t), Body: func(r *explore.Run) { pipelineBodyFaults(r, rep, "pipeline-read-faults/steps1", 1, fa, true) }})
+	if report.Thorough() {
+		scs = append(scs, report.Scenario{Name: "pipeline-read-faults/steps2", Bound: 1, Wrap: report.Bubble(t), Body: func(r *explore.Run) { pipelineBodyFaults(r, rep, "pipeline-read-faults/steps2", 2, fa, true) }})
+	}
+	rep.SelfCheck(t, scs[0], func() { prepared = map[string]*simkube.Store{} })
 	// Part B first: it is small, and its samples then make it into the merged evidence.
 	scs = append(runnerScenarios(t, rep), scs...)
 	rep.RunScenarios(t, scs)
